@@ -146,8 +146,7 @@ def run(R, env):
             if not (hb is not None and len(hc[2]) == 1 and hc[2][0][0] == "field" and hc[2][0][2] == "ibc_channel_id" and hc[2][0][1][0] == "param"):
                 hb = None
             if hb is not None:
-                oks = [e for e in exits(Ctx(hb)) if e["kind"] == "ok"]
-                if not (oks and all(e["term"][3][0][2][0] == "param" and e["term"][3][0][2][1] == 1 for e in oks)):
+                if not shared.returns_its_input(hb):
                     hb = None
         R.ob("C09.R3", "channel-copied-from-validated-input", raw or hb is not None, "ibc_channel_id <- %s" % fmt(v or ("none",))[:100], fn=b.key)
         if hb is not None:
